@@ -116,6 +116,8 @@ class CallMixin:
                 return [(st, SFunc(None, self_val=o, builtin='dict.' + attr))]
         if isinstance(o, SOpaque):
             return self.opaque_attr(st, o, attr, ln)
+        if isinstance(o, SFunc) and o.builtin == 'itertools.chain' and attr == 'from_iterable':
+            return [(st, SFunc(None, builtin='itertools.chain.from_iterable'))]
         if isinstance(o, SFunc) and attr == '__name__':
             raise ToolLimit('function __name__')
         raise ToolLimit('attribute %s of %r' % (attr, o))
@@ -738,7 +740,7 @@ class CallMixin:
                 cur = nxt
             out.append((cur, pos[1] if len(pos) > 1 else NONE))
             return out
-        if d.sym is not None and isinstance(pos[0], SStr):
+        if d.sym is not None and isinstance(pos[0], SNode):
             keys, vals, nonev = d.sym
             k = pos[0].t
             present = z3.Select(keys, k)
